@@ -40,7 +40,7 @@ def judge_records(ctx, dec, rinsts, origin, note="", skip_branches=False):
                                  f"{note}operands {list(d[2])} (mnemonic {d[1]!r}) for the prefixed line {ri.raw!r}; its operands are {list(want) if specified else ri.ops_att}", key)
             continue
         n_expected = max(1, len(ri.ops_att))
-        if ri.plain:
+        if ri.plain or (ri.parsed.mnemonic == "(bad)" and all(o is not None for o in ri.ops_norm)):
             want = ri.expected_fields()
             ctx.case(objd.line_shape(ri), True)
             ctx.event("instructions_judged")
@@ -133,7 +133,8 @@ def run_shard(ctx):
         # spellings a hand-edited or foreign listing may carry: the normal form keeps an immediate's text as it stands
         a0 = insts[-1].addr + insts[-1].nbytes
         for k, (m, ops) in enumerate([("mov", ["$0xFF", "%eax"]), ("cmp", ["$0xAB", "%al"]), ("push", ["$0xDEADBEEF"]), ("mov", ["$0x0A", "0x1C(%rsp)"]),
-                                      ("and", ["$-0x10", "%rsp"]), ("mov", ["$0xff", "%eax"])]):
+                                      ("and", ["$-0x10", "%rsp"]), ("mov", ["$0xff", "%eax"]), ("(bad)", ["0x4e(%rsi)"]), ("(bad)", ["%st(1)"]), ("(bad)", []),
+                                      ("(bad)", ["$0x10", "%rax"])]):
             insts.append(L.SInst(a0 + 8 * k, m, ops, None, None, 5))
         judge_listing(ctx, ws, L.render(insts, ctx.rng), "syn" if ctx.rng.random() < 0.7 else "syn-crlf")
 
